@@ -204,7 +204,7 @@ def vcf_worlds(tier):
         hap_patterns = [p for p in itertools.product((0, 1), repeat=k) if p[0] == 0]
         for hp in hap_patterns:
             for hom in [None] + list(range(k)):
-                for depth in (1, 3) + ((6,) if T else ()):
+                for depth in (1, 3, 9) + ((6, 14) if T else ()):
                     for nerr in (0, 1, 2):
                         for thr in (0, 3, 10, 20):
                             for nopriors in (False, True):
